@@ -79,3 +79,53 @@ Lemma ex15_concrete :
   | _, _ => False
   end.
 Proof. vm_compute. repeat split. Qed.
+
+(* ------------------------------------------------------------------ *)
+(* relaxation::as_preconditioner<Backend, chebyshev> (as_preconditioner.hpp:87-90: S->apply(A, rhs, x);
+   chebyshev.hpp:160-165: clear(x); solve(A, rhs, x)) is a simulated stateful preconditioner too:
+   state = the members (p, r), invariant = their allocated length.  Hence make_solver<as_preconditioner<
+   chebyshev>, S> is reusable for the state-passing solvers (law-free, NaN included). *)
+Section ChebyPrecond.
+Context {S : Scalar}.
+Local Notation vec := (vec S).
+Hypothesis Z : is_zero (@s0 S) = true.
+Variables (c d : S) (M : option vec) (degree : nat) (A : crs S).
+Hypothesis HM : forall m, M = Some m -> length m = nrows A.
+
+Lemma vzero_len n : length (@vzero S n) = n.
+Proof. unfold vzero. apply repeat_length. Qed.
+
+Definition cheby_sp : @sprecond S (vec * vec) :=
+  fun st r x => cheby_call (c, d, M) degree A st r (vclear x).
+
+Lemma cheby_simulates (st0 : vec * vec) : cheby_state_ok A st0 ->
+  simulates (nrows A) (cheby_state_ok A) cheby_sp
+            (fun r => fst (cheby_call (c, d, M) degree A st0 r (vclear (vzero (nrows A))))).
+Proof.
+  intro H0. split.
+  - intros r Lr. apply cheby_call_result_length; try assumption.
+    rewrite vclear_length. apply vzero_len.
+  - intros st r x Hst Lr Lx. split.
+    + unfold cheby_sp. apply (cheby_apply_reuse Z c d M degree A st st0 r x (vzero (nrows A))); try assumption.
+      apply vzero_len.
+    + unfold cheby_sp. apply cheby_call_state_ok; try assumption. rewrite vclear_length. exact Lx.
+Qed.
+
+Theorem make_solver_cheby_cg_reuse (hist : list (@kcall S)) (c0 : @kcall S) (ws0 wsf : @cg_ws S) (st0 stf : vec * vec) :
+  Forall (call_ok (nrows A)) hist -> call_ok (nrows A) c0 ->
+  cg_sized (nrows A) ws0 -> cheby_state_ok A st0 -> cg_sized (nrows A) wsf -> cheby_state_ok A stf ->
+  fst (cg_obj_call cheby_sp c0 (cg_obj_history cheby_sp hist (ws0, st0))) = fst (cg_obj_call cheby_sp c0 (wsf, stf)).
+Proof.
+  intros HH Hc W0 S0 Wf Sf.
+  exact (cg_object_reuse (nrows A) (cheby_state_ok A) cheby_sp _ hist c0 ws0 wsf st0 stf (cheby_simulates st0 S0) HH Hc W0 S0 Wf Sf).
+Qed.
+
+Theorem make_solver_cheby_bicgstab_reuse (hist : list (@kcall S)) (c0 : @kcall S) (ws0 wsf : @bs_ws S) (st0 stf : vec * vec) :
+  Forall (call_ok (nrows A)) hist -> call_ok (nrows A) c0 ->
+  bs_sized (nrows A) ws0 -> cheby_state_ok A st0 -> bs_sized (nrows A) wsf -> cheby_state_ok A stf ->
+  fst (bs_obj_call cheby_sp c0 (bs_obj_history cheby_sp hist (ws0, st0))) = fst (bs_obj_call cheby_sp c0 (wsf, stf)).
+Proof.
+  intros HH Hc W0 S0 Wf Sf.
+  exact (bicgstab_object_reuse (nrows A) (cheby_state_ok A) cheby_sp _ hist c0 ws0 wsf st0 stf Z (cheby_simulates st0 S0) HH Hc W0 S0 Wf Sf).
+Qed.
+End ChebyPrecond.
